@@ -478,3 +478,39 @@ func (w *c16World) project(v *c16View, kind string) []*big.Int {
 	}
 	return out
 }
+
+// c16MaxCom: committee ids below this bound are projected (max_com of Model/Auth.v).
+const c16MaxCom = 8
+
+// aproject flattens the component a change of principals writes exactly like
+// [aproject] of Model/Auth.v.
+func (w *c16World) aproject(v *c16View, kind string) []*big.Int {
+	var out []*big.Int
+	switch kind {
+	case "setoracles":
+		for i, os := range v.markets {
+			out = append(out, bi(i), bi(len(os)))
+			for _, o := range os {
+				out = append(out, bi(o))
+			}
+		}
+	case "setowner":
+		out = w.project(v, "pause")
+	case "setdeputy":
+		for i, d := range v.b3dep {
+			out = append(out, bi(i), bi(d))
+		}
+	case "setmembers", "delcom":
+		for _, c := range v.coms { // in id order (store order)
+			if c.id >= c16MaxCom {
+				continue
+			}
+			out = append(out, bi(c.id), bb(c.memberType), bi(len(c.members)))
+			for _, m := range c.members {
+				out = append(out, bi(m))
+			}
+		}
+		out = append(out, w.project(v, "vote")...)
+	}
+	return out
+}
